@@ -276,3 +276,26 @@ impl Params {
         self.tier == Tier::Quick
     }
 }
+
+thread_local! {
+    static IN_PROBE: std::cell::Cell<bool> = const { std::cell::Cell::new(false) };
+}
+
+/// Installs a panic hook that stays silent while a `probe` is running (panics of the code under
+/// test are verdict material, not noise) and prints everything else (harness bugs).
+pub fn quiet_panics_inside_probes() {
+    let default = std::panic::take_hook();
+    std::panic::set_hook(Box::new(move |info| {
+        if !IN_PROBE.with(|p| p.get()) {
+            default(info);
+        }
+    }));
+}
+
+/// Runs `f`, converting a panic into `Err(())`.
+pub fn probe<T>(f: impl FnOnce() -> T) -> Result<T, ()> {
+    IN_PROBE.with(|p| p.set(true));
+    let r = std::panic::catch_unwind(std::panic::AssertUnwindSafe(f));
+    IN_PROBE.with(|p| p.set(false));
+    r.map_err(|_| ())
+}
